@@ -25,7 +25,7 @@ var profiles = map[string]Profile{
 		AbortPct: 8, FilterPct: 4, FailInsPct: 2, MaxStmts: 8, Long: true},
 	"atomic": {Name: "atomic", Txns: 14, KeyedPct: 30, SeedPct: 30, NestedPct: 20, SchemaPct: 5, AbortPct: 50, FilterPct: 12,
 		FailInsPct: 25, MaxStmts: 8},
-	"index": {Name: "index", Txns: 14, KeyedPct: 10, SeedPct: 35, LateIdxPct: 40, SchemaPct: 30, RestorePct: 8, ReplicaPct: 15,
+	"index": {Name: "index", Txns: 14, KeyedPct: 10, SeedPct: 35, LateIdxPct: 40, DensePct: 12, DenseFirstPct: 75, SchemaPct: 30, RestorePct: 8, ReplicaPct: 15,
 		AbortPct: 10, FilterPct: 10, FailInsPct: 3, MaxStmts: 7},
 	"filter": {Name: "filter", Txns: 10, KeyedPct: 10, SeedPct: 45, LateIdxPct: 60, SchemaPct: 10, AbortPct: 10, FilterPct: 33,
 		FailInsPct: 2, MaxStmts: 9},
@@ -41,7 +41,7 @@ var profiles = map[string]Profile{
 	// string columns over a small alphabet with a sorted index from the start, frequent Ascend
 	"sorted": {Name: "sorted", Txns: 16, KeyedPct: 10, SeedPct: 30, SchemaPct: 10, RestorePct: 5, ReplicaPct: 0,
 		AbortPct: 10, FilterPct: 30, FailInsPct: 3, MaxStmts: 6, Kinds: []Kind{KStrCat, KStrMin, KStr, KEnum, KStrCat, KInt16}, ForceSorted: true},
-	"alloc": {Name: "alloc", Txns: 22, KeyedPct: 15, SeedPct: 35, NestedPct: 25, DensePct: 3, SchemaPct: 4, AbortPct: 25, FilterPct: 10,
+	"alloc": {Name: "alloc", Txns: 22, KeyedPct: 15, SeedPct: 55, NestedPct: 25, DensePct: 35, DenseFirstPct: 75, SchemaPct: 4, AbortPct: 25, FilterPct: 10,
 		FailInsPct: 12, MaxStmts: 9},
 }
 
